@@ -221,7 +221,7 @@ fn run_thread(d: &Daemon, t: usize, ops: &[TOp]) -> Done {
                 }
             }
             // (no request triggers the snapshot task; the daemon part reads instead)
-            TOp::Snapshot => get(d, "/stats/info"),
+            TOp::Snapshot | TOp::RemoteChildList { .. } => get(d, "/stats/info"),
             TOp::Read => {
                 for ca in CAS {
                     get(d, &format!("/api/v1/cas/{ca}"))?;
